@@ -69,6 +69,8 @@ func runC16(p *Program, r *Report) {
 	checkShiftAndCountWidth(p, r, "R16c", "R16d", reach, 5)
 	r.Rule("R16e", "TOP-ROW-IS-A-ROW: a row (a DetectRow result or a loop counter) is compared with a forest height (a TreeRows result, a TotalRows field, a parameter that receives one at every call site) only inclusively: row <= H inside, row > H outside")
 	checkTopRowIsARow(p, r, "R16e")
+	r.Rule("R16f", "THE-MAXIMUM-IS-A-POSITION: a value is compared with the result of maxPositionAtRow / maxPossiblePosAtRow (the biggest position of a row) only inclusively: x <= max inside, x > max outside")
+	checkMaximumIsAPosition(p, r, "R16f", 6)
 
 	// R16b
 	pp := p.Func("ProofPositions")
